@@ -24,6 +24,7 @@ class BRule:
         self.name, self.inline, self.expand1, self.keep_all, self.priority, self.user, self.helper = \
             name, inline, expand1, keep_all, priority, user, helper
         self.alts = []
+        self.label = name       # what a tree node of this rule is called: a template instance carries the template's name
 
 
 class BAlt:
@@ -108,9 +109,9 @@ class BNF:
             key = (it.name, tuple(a.render() for a in args))
             if key not in self._instances:
                 tpl = self._templates[it.name]
-                iname = '%s{%s}' % (it.name, ','.join(self._arg_name(a) for a in args))
+                iname = '%s{%s}' % (it.name, ','.join(a.render() for a in args))     # one instance per distinct argument *text*
                 self._instances[key] = iname
-                self._add_user_rule(tpl, iname, dict(zip(tpl.params, args)))
+                self._add_user_rule(tpl, iname, dict(zip(tpl.params, args))).label = tpl.name
             return [('n', self._instances[key])]
         if isinstance(it, g.Grp):
             h = self._helper(owner)
